@@ -44,6 +44,9 @@ TEXTS = [
     "try:\n    x = int('a')\nexcept ValueError:\n    x = 0\nfinally:\n    print(x)\n",
     "   \n\n",
     "x = 1\x00\n",
+    # labels that are both a literal row and matched by a compiled row of the taxonomy (aliased list append)
+    "acc = 0\nfor i in range(5):\n    acc = acc + i\nprint(acc)\n",
+    "l = list(range(3))\nd = dict()\nb = bool(1)\nprint(l, d, b)\n",
 ]
 
 
@@ -148,8 +151,10 @@ def reference(text, query_ids):
     rec["trace"] = proc.traces
     # taxonomy oracles for the labels of this text
     rec["pure"] = {}
-    for n in rec["out_names"]:
-        rec["pure"][n] = list(proc.taxonomy.get_taxon_name_list(n))
+    from paroxython.map_taxonomy import Taxonomy
+    fresh_taxonomy = Taxonomy()
+    for n in dict.fromkeys(rec["out_names"]):
+        rec["pure"][n] = list(fresh_taxonomy.get_taxon_name_list(n))  # each label once, on an untouched instance
     return rec
 
 
@@ -229,8 +234,12 @@ def stream_sequences(ctx, drv, n_seq):
                 obs["read_trace"] = mod_obs["read_trace"] = []
             lit_ok = True
             for name, val in ms["literal_touched"]:
-                if proc.taxonomy.literal_labels.get(name) != val:
+                # the in-place append is a quirk of the current code: a copy-on-read refactoring (list untouched)
+                # is accepted too; anything else (e.g. a list that keeps growing) is not
+                if proc.taxonomy.literal_labels.get(name) not in (val, lit0.get(name)):
                     lit_ok = False
+                if proc.taxonomy.literal_labels.get(name) != lit0.get(name):
+                    ctx.dist("seq.literal_list_extended_in_place")
             memo_impl = None if memo_base is None else memo_size(proc) - memo_base
             if not same_out or obs != mod_obs or not lit_ok or (memo_impl is not None and ms["memo_size"] != memo_impl):
                 ctx.broken.append("corr:state-observables")
